@@ -102,10 +102,20 @@ class Shrinker:
         V, res = self.mod.judge(d, self.env)
         if not isinstance(V, list):
             return None
-        hit = [x for x in V if x["class"] in self.classes]
+        hit = [x for x in V if x["class"] in self.classes and self._same_exception(x)]
         if not hit:
             return None
         return V, res
+
+    def _same_exception(self, x):
+        """A violation that consists of an exception keeps its exception type while shrinking
+        (dropping a file that the configuration still names would otherwise 'reproduce' an
+        exception-only-in-batch violation with an unrelated configuration error)."""
+        want = getattr(self, "exc_type", None)
+        if want is None:
+            return True
+        exc = (x.get("observed") or {}).get("exc") if isinstance(x.get("observed"), dict) else None
+        return isinstance(exc, dict) and exc.get("type") == want
 
     def try_schedules(self, d, keep_trace):
         """Candidate d with (a) the old decisions filtered through, (b) fresh PRNG schedules."""
@@ -127,6 +137,9 @@ def minimize(mod, v, env):
     desc0 = v["desc"]
     classes = [x["class"] for x in v["violations"]]
     S = Shrinker(mod, env, classes[:1])
+    first = v["violations"][0]
+    if isinstance(first.get("observed"), dict) and isinstance(first["observed"].get("exc"), dict):
+        S.exc_type = first["observed"]["exc"].get("type")
     cur = copy.deepcopy(desc0)
     r = S.test(cur)
     if not r:
